@@ -1,5 +1,605 @@
-//! C18 (filled in later).
-use crate::Args;
-pub fn mode(_args: &Args) {
-    unimplemented!()
+//! C18: the layout depends only on the resolver's answers; type tables are faithful.
+
+use std::collections::{BTreeMap, HashMap};
+use std::panic::{catch_unwind, AssertUnwindSafe};
+
+use truc::record::definition::{
+    builder::native::{variant as nvariant, DatumDefinitionOverride, NativeRecordDefinitionBuilder},
+    DatumId, NativeDatumDetails, RecordDefinition,
+};
+use truc::record::type_resolver::{
+    DynamicTypeInfo, HostTypeResolver, StaticTypeResolver, TypeInfo, TypeResolver,
+};
+use vtypes::Rng;
+
+use crate::hist::{History, Strat, STRATS};
+use crate::monitors::{check_definition, HistFlags, LayoutRun, Stats, Violation};
+use crate::sut::{id_of, panic_text};
+use crate::{keep_violations, Args, Distinct, Report};
+
+const NTYPES: usize = 19;
+const COPY: [bool; NTYPES] = [
+    true, true, true, true, true, true, true, true, true, true, false, false, false, true, true,
+    true, true, true, false,
+];
+
+macro_rules! with_type {
+    ($idx:expr, $f:ident, $($a:expr),*) => {
+        match $idx {
+            0 => $f::<u8>($($a),*),
+            1 => $f::<u16>($($a),*),
+            2 => $f::<u32>($($a),*),
+            3 => $f::<u64>($($a),*),
+            4 => $f::<u128>($($a),*),
+            5 => $f::<usize>($($a),*),
+            6 => $f::<i64>($($a),*),
+            7 => $f::<f64>($($a),*),
+            8 => $f::<bool>($($a),*),
+            9 => $f::<char>($($a),*),
+            10 => $f::<String>($($a),*),
+            11 => $f::<Vec<u32>>($($a),*),
+            12 => $f::<Box<str>>($($a),*),
+            13 => $f::<[u8; 3]>($($a),*),
+            14 => $f::<()>($($a),*),
+            15 => $f::<Option<u32>>($($a),*),
+            16 => $f::<[u64; 3]>($($a),*),
+            17 => $f::<(u8, u32)>($($a),*),
+            18 => $f::<Vec<()>>($($a),*),
+            _ => unreachable!(),
+        }
+    };
+}
+
+macro_rules! with_copy_type {
+    ($idx:expr, $f:ident, $($a:expr),*) => {
+        match $idx {
+            0 => $f::<u8>($($a),*),
+            1 => $f::<u16>($($a),*),
+            2 => $f::<u32>($($a),*),
+            3 => $f::<u64>($($a),*),
+            4 => $f::<u128>($($a),*),
+            5 => $f::<usize>($($a),*),
+            6 => $f::<i64>($($a),*),
+            7 => $f::<f64>($($a),*),
+            8 => $f::<bool>($($a),*),
+            9 => $f::<char>($($a),*),
+            13 => $f::<[u8; 3]>($($a),*),
+            14 => $f::<()>($($a),*),
+            15 => $f::<Option<u32>>($($a),*),
+            16 => $f::<[u64; 3]>($($a),*),
+            17 => $f::<(u8, u32)>($($a),*),
+            _ => unreachable!(),
+        }
+    };
+}
+
+fn host_info<T>() -> TypeInfo {
+    HostTypeResolver.type_info::<T>()
+}
+
+fn std_name<T>() -> String {
+    std::any::type_name::<T>().to_owned()
+}
+
+type SynthBuilder<'a> = NativeRecordDefinitionBuilder<&'a StaticTypeResolver>;
+type RefBuilder = NativeRecordDefinitionBuilder<HostTypeResolver>;
+
+fn add_typed<T>(b: &mut SynthBuilder, name: &str) -> Result<DatumId, String> {
+    b.add_datum::<T, _>(name)
+}
+fn add_typed_uninit<T: Copy>(b: &mut SynthBuilder, name: &str) -> Result<DatumId, String> {
+    b.add_datum_allow_uninit::<T, _>(name)
+}
+fn add_override<T>(b: &mut SynthBuilder, name: &str, ov: DatumDefinitionOverride) -> Result<DatumId, String> {
+    b.add_datum_override::<T, _>(name, ov)
+}
+
+/// Synthetic tables: answers that differ from the host's.
+fn synth_table(kind: usize) -> (BTreeMap<String, DynamicTypeInfo>, Vec<TypeInfo>) {
+    let mut map = BTreeMap::new();
+    let mut infos = Vec::new();
+    for idx in 0..NTYPES {
+        let host = with_type!(idx, host_info,);
+        let (size, align) = match kind {
+            // a 32-bit target seen from a 64-bit host
+            0 => match idx {
+                3 | 6 | 7 => (8, 4),
+                4 => (16, 4),
+                5 => (4, 4),
+                10 | 11 | 18 => (12, 4),
+                12 => (8, 4),
+                16 => (24, 4),
+                _ => (host.size, host.align),
+            },
+            // deliberately odd answers: sizes that are not multiples of the alignment, zero sizes
+            1 => ((idx * 5) % 23, 1usize << ((idx * 7) % 5)),
+            // everything twice as aligned as on the host, sizes padded
+            _ => (host.size + host.align, (host.align * 2).min(16)),
+        };
+        let info = TypeInfo {
+            name: host.name.clone(),
+            size,
+            align,
+        };
+        map.insert(
+            host.name.clone(),
+            DynamicTypeInfo {
+                info: info.clone(),
+                allow_uninit: COPY[idx],
+            },
+        );
+        infos.push(info);
+    }
+    (map, infos)
+}
+
+#[derive(Clone, Debug)]
+enum Entry {
+    Typed,
+    TypedUninit,
+    Dynamic { spelling: usize },
+    Override { name: bool, size: Option<usize>, align: Option<usize>, uninit: Option<bool> },
+    Copy { donor_uninit: bool },
+}
+
+#[derive(Clone, Debug)]
+enum RReq {
+    Add { ty: usize, entry: Entry },
+    Remove { k: usize },
+    Close { strat: Strat },
+}
+
+fn gen(rng: &mut Rng) -> Vec<RReq> {
+    let nvariants = rng.range(1, 5);
+    let mut reqs = Vec::new();
+    let mut live: Vec<usize> = Vec::new();
+    let mut issued = 0usize;
+    for v in 0..nvariants {
+        for k in live.clone() {
+            if rng.chance(1, 4) {
+                reqs.push(RReq::Remove { k });
+                live.retain(|x| *x != k);
+            }
+        }
+        let nadds = if v == 0 { rng.range(1, 7) } else { rng.range(0, 5) };
+        // a few types only, so that the same type comes through several entry points
+        let pool: Vec<usize> = (0..3).map(|_| rng.below(NTYPES)).collect();
+        for _ in 0..nadds {
+            let ty = if rng.chance(2, 3) { *rng.pick(&pool) } else { rng.below(NTYPES) };
+            let entry = match rng.below(6) {
+                0 | 1 => Entry::Typed,
+                2 if COPY[ty] => Entry::TypedUninit,
+                3 => Entry::Dynamic { spelling: rng.below(3) },
+                4 => Entry::Override {
+                    name: rng.chance(1, 2),
+                    size: if rng.chance(1, 2) { Some(rng.range(0, 40)) } else { None },
+                    align: if rng.chance(1, 2) { Some(1 << rng.below(5)) } else { None },
+                    uninit: match rng.below(3) {
+                        0 => None,
+                        1 => Some(false),
+                        _ => Some(true),
+                    },
+                },
+                5 => Entry::Copy { donor_uninit: rng.chance(1, 2) },
+                _ => Entry::Typed,
+            };
+            reqs.push(RReq::Add { ty, entry });
+            live.push(issued);
+            issued += 1;
+        }
+        reqs.push(RReq::Close { strat: if rng.chance(1, 2) { Strat::Simple } else { *rng.pick(&STRATS) } });
+    }
+    reqs
+}
+
+fn text(reqs: &[RReq]) -> String {
+    reqs.iter().map(|r| format!("{:?}", r)).collect::<Vec<_>>().join("; ")
+}
+
+fn close<R: TypeResolver>(b: &mut NativeRecordDefinitionBuilder<R>, strat: Strat) {
+    match strat {
+        Strat::Simple => b.close_record_variant_with(nvariant::simple),
+        Strat::Basic => b.close_record_variant_with(nvariant::basic),
+        Strat::Append => b.close_record_variant_with(nvariant::append_data),
+        Strat::AppendRev => b.close_record_variant_with(nvariant::append_data_reverse),
+    };
+}
+
+fn facts(def: &RecordDefinition<NativeDatumDetails>) -> Vec<(usize, String, String, usize, usize, bool, i64)> {
+    def.datum_definitions()
+        .map(|d| {
+            (
+                id_of(d.id()),
+                d.name().to_owned(),
+                d.details().type_name().to_owned(),
+                d.details().size(),
+                d.details().type_align(),
+                d.details().allow_uninit(),
+                d.details().offset() as i64,
+            )
+        })
+        .collect()
+}
+
+fn pseudo_history(reqs: &[RReq], kind: usize) -> History {
+    History {
+        reqs: Vec::new(),
+        unique_names: true,
+        origin: format!("resolver-differential table={} {}", kind, text(reqs)),
+    }
+}
+
+/// One differential case. Returns true when it ran to the end.
+fn differential(reqs: &[RReq], kind: usize, stats: &mut Stats, out: &mut Vec<Violation>) -> bool {
+    let (map, infos) = synth_table(kind);
+    let table = StaticTypeResolver::from(map);
+    let h = pseudo_history(reqs, kind);
+    let mut a: SynthBuilder = NativeRecordDefinitionBuilder::new(&table);
+    let mut r: RefBuilder = NativeRecordDefinitionBuilder::new(HostTypeResolver);
+    let mut issued_a: Vec<DatumId> = Vec::new();
+    let mut issued_r: Vec<DatumId> = Vec::new();
+    let mut n = 0usize;
+    for req in reqs {
+        match req {
+            RReq::Add { ty, entry } => {
+                let name = format!("x{}", n);
+                n += 1;
+                let table_info = infos[*ty].clone();
+                let (res, expected, exp_uninit) = match entry {
+                    Entry::Typed => (
+                        catch_unwind(AssertUnwindSafe(|| with_type!(*ty, add_typed, &mut a, &name))),
+                        table_info,
+                        false,
+                    ),
+                    Entry::TypedUninit => (
+                        catch_unwind(AssertUnwindSafe(|| with_copy_type!(*ty, add_typed_uninit, &mut a, &name))),
+                        table_info,
+                        true,
+                    ),
+                    Entry::Dynamic { spelling } => {
+                        let s = match spelling {
+                            0 => table_info.name.clone(),
+                            1 => with_type!(*ty, std_name,),
+                            _ => table_info.name.replace(' ', ""),
+                        };
+                        (
+                            catch_unwind(AssertUnwindSafe(|| a.add_dynamic_datum(name.as_str(), s.as_str()))),
+                            table_info,
+                            COPY[*ty],
+                        )
+                    }
+                    Entry::Override { name: ovn, size, align, uninit } => {
+                        let mut e = table_info;
+                        let tn = if *ovn { Some(format!("Renamed{}", ty)) } else { None };
+                        if let Some(tn) = &tn {
+                            e.name = tn.clone();
+                        }
+                        if let Some(s) = size {
+                            e.size = *s;
+                        }
+                        if let Some(al) = align {
+                            e.align = *al;
+                        }
+                        let ov = DatumDefinitionOverride {
+                            type_name: tn,
+                            size: *size,
+                            align: *align,
+                            allow_uninit: *uninit,
+                        };
+                        (
+                            catch_unwind(AssertUnwindSafe(|| with_type!(*ty, add_override, &mut a, &name, ov))),
+                            e,
+                            uninit.unwrap_or(false),
+                        )
+                    }
+                    Entry::Copy { donor_uninit } => {
+                        let use_uninit = *donor_uninit && COPY[*ty];
+                        // the donor datum lives in a builder of its own, resolved by the same table
+                        let res = catch_unwind(AssertUnwindSafe(|| {
+                            let mut tmp: SynthBuilder = NativeRecordDefinitionBuilder::new(&table);
+                            let ov = DatumDefinitionOverride { type_name: None, size: None, align: None, allow_uninit: Some(use_uninit) };
+                            let tid = with_type!(*ty, add_override, &mut tmp, &name, ov)?;
+                            a.copy_datum(&tmp[tid])
+                        }));
+                        (res, table_info, use_uninit)
+                    }
+                };
+                let id = match res {
+                    Ok(Ok(id)) => id,
+                    Ok(Err(e)) => {
+                        out.push(Violation::new("C18", "entry-point-refused", format!("{:?}: {}", req, e), &h));
+                        return false;
+                    }
+                    Err(p) => {
+                        out.push(Violation::new("C18", "entry-point-panicked", format!("{:?}: {}", req, panic_text(p)), &h));
+                        return false;
+                    }
+                };
+                issued_a.push(id);
+                // what was attached must be exactly the resolver's answer (plus the overrides)
+                let got = a[id].details();
+                stats.data_checked += 1;
+                if got.type_info() != &expected || got.allow_uninit() != exp_uninit {
+                    out.push(Violation::new(
+                        "C18",
+                        "attached-type-information-differs-from-the-resolver",
+                        format!(
+                            "{:?}: attached {:?} uninit {}, the resolver (and overrides) say {:?} uninit {}; the host says {:?}",
+                            req,
+                            got.type_info(),
+                            got.allow_uninit(),
+                            expected,
+                            exp_uninit,
+                            with_type!(*ty, host_info,)
+                        ),
+                        &h,
+                    ));
+                }
+                // reference: the same numbers given explicitly, no resolver involved
+                let rid = r
+                    .add_datum_override::<(), _>(
+                        name.as_str(),
+                        DatumDefinitionOverride {
+                            type_name: Some(expected.name.clone()),
+                            size: Some(expected.size),
+                            align: Some(expected.align),
+                            allow_uninit: Some(exp_uninit),
+                        },
+                    )
+                    .unwrap();
+                issued_r.push(rid);
+            }
+            RReq::Remove { k } => {
+                let _ = a.remove_datum(issued_a[*k]);
+                let _ = r.remove_datum(issued_r[*k]);
+            }
+            RReq::Close { strat } => {
+                if catch_unwind(AssertUnwindSafe(|| close(&mut a, *strat))).is_err() {
+                    out.push(Violation::new("C18", "close-panicked", format!("{:?}", req), &h));
+                    return false;
+                }
+                close(&mut r, *strat);
+                stats.closes_observed += 1;
+            }
+        }
+    }
+    let (da, dr) = (a.build(), r.build());
+    let (fa, fr) = (facts(&da), facts(&dr));
+    stats.definitions_built += 2;
+    if fa != fr {
+        let diff: Vec<String> = fa
+            .iter()
+            .zip(fr.iter())
+            .filter(|(x, y)| x != y)
+            .map(|(x, y)| format!("{:?} vs {:?}", x, y))
+            .collect();
+        out.push(Violation::new(
+            "C18",
+            "layout-differs-from-the-resolver-only-reference",
+            format!("typed/dynamic/override/copy under the table vs explicit numbers: {}", diff.join(" | ")),
+            &h,
+        ));
+    }
+    let variants_a: Vec<String> = da.variants().map(|v| v.to_string()).collect();
+    let variants_r: Vec<String> = dr.variants().map(|v| v.to_string()).collect();
+    if variants_a != variants_r {
+        out.push(Violation::new("C18", "variant-lists-differ", format!("{:?} vs {:?}", variants_a, variants_r), &h));
+    }
+    // the layout is sound with the resolver's numbers
+    let mut v = Vec::new();
+    {
+        let mut run = LayoutRun { stats, violations: &mut v, generate_every: 0 };
+        let mut flags = HistFlags::default();
+        check_definition(&da, &h, &HashMap::new(), &mut run, &mut flags);
+    }
+    for mut x in v {
+        x.kind = format!("layout-under-synthetic-resolver:{}:{}", x.property, x.kind);
+        x.property = "C18".to_owned();
+        out.push(x);
+    }
+    true
+}
+
+// ---- table faithfulness ---------------------------------------------------------------------
+
+struct FamilyCtx<'a> {
+    table: &'a StaticTypeResolver,
+    round_trip: &'a StaticTypeResolver,
+    uninit: bool,
+    count: usize,
+    problems: Vec<String>,
+}
+
+fn check_member<T>(ctx: &mut FamilyCtx) {
+    ctx.count += 1;
+    let host = HostTypeResolver.type_info::<T>();
+    let real = TypeInfo {
+        name: host.name.clone(),
+        size: std::mem::size_of::<T>(),
+        align: std::mem::align_of::<T>(),
+    };
+    if host != real {
+        ctx.problems.push(format!("HostTypeResolver answers {:?} for a type whose real facts are {:?}", host, real));
+    }
+    for (which, t) in [("table", ctx.table), ("json round trip", ctx.round_trip)] {
+        match catch_unwind(AssertUnwindSafe(|| t.type_info::<T>())) {
+            Ok(info) if info == real => {}
+            Ok(info) => ctx.problems.push(format!("{}: type_info::<{}>() = {:?}, registered {:?}", which, real.name, info, real)),
+            Err(_) => ctx.problems.push(format!("{}: type_info::<{}>() panicked for a registered type", which, real.name)),
+        }
+        for spelling in [real.name.clone(), std::any::type_name::<T>().to_owned(), real.name.replace(' ', ""), real.name.replace(' ', "  ")] {
+            match catch_unwind(AssertUnwindSafe(|| t.dynamic_type_info(&spelling))) {
+                Ok(d) if d.info == real && d.allow_uninit == ctx.uninit => {}
+                Ok(d) => ctx.problems.push(format!("{}: dynamic_type_info({:?}) = {:?}/{}, registered {:?}/{}", which, spelling, d.info, d.allow_uninit, real, ctx.uninit)),
+                Err(_) => ctx.problems.push(format!("{}: dynamic_type_info({:?}) panicked for a registered type", which, spelling)),
+            }
+        }
+    }
+}
+
+macro_rules! family {
+    ($ctx:expr, $t:ty) => {
+        check_member::<$t>($ctx);
+        check_member::<Option<$t>>($ctx);
+        family!(@arrays $ctx, $t, 1, 2, 3, 4, 5, 6, 7, 8, 9, 10);
+    };
+    (@arrays $ctx:expr, $t:ty, $($n:expr),*) => {
+        $(
+            check_member::<[$t; $n]>($ctx);
+            check_member::<Option<[$t; $n]>>($ctx);
+        )*
+    };
+}
+
+fn table_checks(stats: &mut Stats, out: &mut Vec<Violation>) -> usize {
+    let h = History { reqs: Vec::new(), unique_names: true, origin: "standard type table".to_owned() };
+    let mut table = StaticTypeResolver::new();
+    table.add_std_types();
+    let json = table.to_json_string().unwrap();
+    let parsed: BTreeMap<String, DynamicTypeInfo> = serde_json::from_str(&json).unwrap();
+    let entries = parsed.len();
+    // the three serialised forms agree
+    let v1 = table.to_json_value().unwrap();
+    let v2: serde_json::Value = serde_json::from_str(&json).unwrap();
+    let v3: serde_json::Value = serde_json::from_str(&table.to_json_string_pretty().unwrap()).unwrap();
+    if v1 != v2 || v1 != v3 {
+        out.push(Violation::new("C18", "json-forms-disagree", "to_json_value / to_json_string / to_json_string_pretty".to_owned(), &h));
+    }
+    let round_trip = StaticTypeResolver::from(parsed.clone());
+    let mut problems = Vec::new();
+    let mut count = 0;
+    for (uninit, pass) in [(true, 0), (false, 1)] {
+        let mut ctx = FamilyCtx { table: &table, round_trip: &round_trip, uninit, count: 0, problems: Vec::new() };
+        if pass == 0 {
+            family!(&mut ctx, u8);
+            family!(&mut ctx, u16);
+            family!(&mut ctx, u32);
+            family!(&mut ctx, u64);
+            family!(&mut ctx, u128);
+            family!(&mut ctx, usize);
+            family!(&mut ctx, i8);
+            family!(&mut ctx, i16);
+            family!(&mut ctx, i32);
+            family!(&mut ctx, i64);
+            family!(&mut ctx, i128);
+            family!(&mut ctx, isize);
+            family!(&mut ctx, f32);
+            family!(&mut ctx, f64);
+            family!(&mut ctx, char);
+            family!(&mut ctx, bool);
+        } else {
+            family!(&mut ctx, String);
+            family!(&mut ctx, Box<str>);
+            family!(&mut ctx, Vec<()>);
+        }
+        count += ctx.count;
+        problems.extend(ctx.problems);
+    }
+    stats.data_checked += count as u64;
+    if count != entries {
+        problems.push(format!("the standard table has {} entries, the enumerated family has {} members", entries, count));
+    }
+    // every key of the table answers identically after the round trip
+    for (k, d) in &parsed {
+        let a = catch_unwind(AssertUnwindSafe(|| round_trip.dynamic_type_info(k)));
+        match a {
+            Ok(x) if x.info == d.info && x.allow_uninit == d.allow_uninit && x.info.name == *k => {}
+            other => problems.push(format!("key {:?}: registered {:?}, round trip answers {:?}", k, d, other.ok())),
+        }
+    }
+    // an unregistered type must not be answered (least of all with the host's numbers)
+    let (map, _) = synth_table(0);
+    let foreign = StaticTypeResolver::from(map);
+    type Unregistered = (usize, usize, u8);
+    match catch_unwind(AssertUnwindSafe(|| foreign.type_info::<Unregistered>())) {
+        Err(_) => {}
+        Ok(info) => problems.push(format!("a table without (usize, usize, u8) answered {:?} for it", info)),
+    }
+    match catch_unwind(AssertUnwindSafe(|| foreign.dynamic_type_info("(usize , usize , u8)"))) {
+        Err(_) => {}
+        Ok(info) => problems.push(format!("a table without (usize, usize, u8) answered {:?} for its name", info)),
+    }
+    // custom registrations
+    {
+        let mut t = StaticTypeResolver::new();
+        t.add_type::<vtypes::Plain>();
+        t.add_type_allow_uninit::<vtypes::A32>();
+        t.add_type::<Vec<vtypes::nested::Gen<u8>>>();
+        let mut ctx = FamilyCtx { table: &t, round_trip: &t, uninit: false, count: 0, problems: Vec::new() };
+        check_member::<vtypes::Plain>(&mut ctx);
+        check_member::<Vec<vtypes::nested::Gen<u8>>>(&mut ctx);
+        ctx.uninit = true;
+        check_member::<vtypes::A32>(&mut ctx);
+        problems.extend(ctx.problems);
+        count += ctx.count;
+    }
+    for p in problems {
+        out.push(Violation::new("C18", "type-table-not-faithful", p, &h));
+    }
+    count
+}
+
+pub fn mode(args: &Args) {
+    let seed = args.u64("seed", 1);
+    let count = args.u64("count", 2_000);
+    let shard = args.u64("shard", 0);
+    let mut stats = Stats::default();
+    let mut violations = Vec::new();
+    let mut total = 0u64;
+    let mut distinct = Distinct::new();
+    let mut samples = Vec::new();
+    let mut evaluations = 0u64;
+    let mut extra = BTreeMap::new();
+    if shard == 0 {
+        let mut v = Vec::new();
+        let members = table_checks(&mut stats, &mut v);
+        keep_violations(&mut violations, &mut total, v);
+        extra.insert("standard_table_members_checked".to_owned(), serde_json::json!(members));
+        evaluations += members as u64;
+    }
+    let mut rng = Rng::stream(seed, 0x5000 + shard);
+    for i in 0..count {
+        let reqs = gen(&mut rng);
+        let kind = (i % 3) as usize;
+        evaluations += 1;
+        stats.histories += 1;
+        let mut v = Vec::new();
+        let ok = differential(&reqs, kind, &mut stats, &mut v);
+        keep_violations(&mut violations, &mut total, v);
+        let d = vtypes::fnv64(format!("{} {}", kind, text(&reqs)).as_bytes());
+        let entry_kinds: std::collections::BTreeSet<u8> = reqs
+            .iter()
+            .filter_map(|r| match r {
+                RReq::Add { entry, .. } => Some(match entry {
+                    Entry::Typed => 0,
+                    Entry::TypedUninit => 1,
+                    Entry::Dynamic { .. } => 2,
+                    Entry::Override { .. } => 3,
+                    Entry::Copy { .. } => 4,
+                }),
+                _ => None,
+            })
+            .collect();
+        if ok && entry_kinds.len() >= 2 {
+            distinct.add("C18", d);
+            if samples.len() < 3 && d % 101 == 0 {
+                samples.push(format!("table {}: {}", kind, text(&reqs)));
+            }
+        }
+    }
+    distinct.dump(args);
+    let report = Report {
+        mode: "resolver".to_owned(),
+        seed,
+        shard,
+        evaluations,
+        distinct_nontrivial: distinct.counts(),
+        exhaustive_sweep: None,
+        stats,
+        extra,
+        samples,
+        violations,
+        violations_total: total,
+    };
+    crate::write_report(args, &report);
 }
